@@ -164,10 +164,90 @@ def s08_weights(ctx):
     return res
 
 
-STREAMS = [s08_weights, s08_params]
+def s08_generated(ctx):
+    """translator validation: the REGENERATED loops of determine_boundary_intersecting_lines (compiled into gen_c08, exact geometry for the
+    parameters) vs the real function, and the documented meaning of the count: number of ends on the boundary"""
+    import_fractopo()
+    import geopandas as gpd
+    from shapely.geometry import LineString, box
+
+    from fractopo.general import determine_boundary_intersecting_lines
+    from harness.common import area_rows, lines as wlines, rat as wrat
+
+    res = StreamResult("S08-generated", rule="regenerated determine_boundary_intersecting_lines (Lean, compiled) vs the real function: lines in / across a box area "
+                       "with 0, 1 or 2 ends exactly on its boundary, lines crossing it entirely, lines outside; thresholds 0.01 / 0.001; also [intersecting] + [cuts through] "
+                       "= number of ends on the boundary for lines that end inside or on it; non-trivial = a line with an end on the boundary")
+    if ctx.gen is None:
+        res.note = "gen_c08 not built (a generated module is broken): skipped"
+        res.skipped["generated_driver_not_built"] = 1
+        return res
+    rng = rng_for(ctx.seed, "S08g")
+    cases, reqs = [], []
+    area = box(-8.0, -8.0, 8.0, 8.0)
+
+    def inside():
+        return (rng.randint(-28, 28) / 4, rng.randint(-28, 28) / 4)
+
+    def on_boundary():
+        s_ = rng.randint(-28, 28) / 4
+        return rng.choice([(8.0, s_), (-8.0, s_), (s_, 8.0), (s_, -8.0)])
+
+    def outside():
+        return (rng.choice([-1, 1]) * rng.randint(40, 60) / 4, rng.randint(-60, 60) / 4)
+
+    for _ in range(budget(ctx.tier, 150, 2500)):
+        t = rng.choice([0.01, 0.001])
+        ls, ends_on = [], []
+        for _ in range(rng.randint(1, 5)):
+            kind = rng.choice(["in", "one", "two", "through", "out"])
+            if kind == "in":
+                a, b, k = inside(), inside(), 0
+            elif kind == "one":
+                a, b, k = inside(), on_boundary(), 1
+            elif kind == "two":
+                a, b, k = on_boundary(), on_boundary(), 2
+            elif kind == "through":
+                a, b, k = (-12.0, rng.randint(-20, 20) / 4), (12.0, rng.randint(-20, 20) / 4), None
+            else:
+                a, b, k = outside(), (outside()[0], 20.0), None
+            if a == b or (kind == "two" and (a[0] == b[0] and abs(a[0]) == 8.0 or a[1] == b[1] and abs(a[1]) == 8.0)):
+                continue  # degenerate / lying along an edge
+            if rng.random() < 0.5:
+                a, b = b, a
+            ls.append([a, b])
+            ends_on.append(k)
+        if not ls:
+            continue
+        cases.append((t, ls, ends_on))
+        reqs.append(f"blines t={wrat(t)} areas={area_rows([area])} lines={wlines(ls)}")
+    resps = ctx.gen.parallel(reqs)
+    for (t, ls, ends_on), req, resp in zip(cases, reqs, resps):
+        res.evaluations += 1
+        r = parse_resp(resp)
+        got = ([x == "1" for x in r["intersecting"].split(",")], [x == "1" for x in r["cuts"].split(",")])
+        i_, c_ = determine_boundary_intersecting_lines(gpd.GeoDataFrame(geometry=[LineString(l) for l in ls]), gpd.GeoDataFrame(geometry=[area]), t)
+        want = ([bool(x) for x in i_], [bool(x) for x in c_])
+        res.nontrivial += int(any(k in (1, 2) for k in ends_on))
+        if got != want:
+            res.disagreements.append(Disagreement("S08-generated", {"stream": "S08-generated", "request": req}, got, want, None,
+                                                  "regenerated determine_boundary_intersecting_lines (Lean) and the Python function disagree"))
+            continue
+        for k, a, b in zip(ends_on, want[0], want[1]):
+            if k is not None and int(a) + int(b) != k:
+                res.disagreements.append(Disagreement("S08-generated", {"stream": "S08-generated", "request": req}, k, int(a) + int(b), True,
+                                                      "boundary-intersection count of a line is not the number of its ends on the boundary"))
+                break
+    res.samples = [{"request": reqs[0][:200], "response": resps[0]}]
+    return res
+
+
+STREAMS = [s08_weights, s08_params, s08_generated]
 
 
 def replay(ctx, stream, case):
+    if stream == "S08-generated":
+        r = s08_generated(ctx)
+        return r.disagreements[0] if r.disagreements else None
     import_fractopo()
     if stream == "S08a-params":
         c = case["case"]
